@@ -524,10 +524,6 @@ leaps_before(struct dt_dt_s d)
 		res = leaps_before_ui32(leaps_ymd, nleaps, d.d.ymd.u);
 		on = res + 1 < nleaps && leaps_ymd[res + 1] == d.d.ymd.u;
 		break;
-	case DT_YMCW:
-		res = leaps_before_ui32(leaps_ymcw, nleaps, d.d.ymcw.u);
-		on = res + 1 < nleaps && leaps_ymcw[res + 1] == d.d.ymcw.u;
-		break;
 	case DT_DAISY:
 		res = leaps_before_ui32(leaps_d, nleaps, d.d.daisy);
 		on = res + 1 < nleaps && leaps_d[res + 1] == d.d.daisy;
@@ -538,6 +534,9 @@ leaps_before(struct dt_dt_s d)
 		on = (res + 1U < nleaps) &&
 			(leaps_s[res + 1] == (int32_t)d.sexy);
 		break;
+	case DT_YMCW:
+		/* the packed ymcw isn't in chronological order within
+		 * a month, so bisecting its column is no good */
 	case DT_YWD:
 	case DT_YD:
 	case DT_BIZDA:
